@@ -317,8 +317,9 @@ def check(ctx):
             x is tm.sub(pa, T("tuple", const(3), T("slice", tm.NONE,
                                                    tm.NONE, tm.NONE)))
             for x in c.walk()) and any(
-            (x.op == "list" and [y.args[1] if tm.is_const(y) else None
-                                 for y in x.args] == [0.0, 0.0, 0.0, 1.0])
+            (x.op in ("list", "tuple") and
+             [y.args[1] if tm.is_const(y) else None
+              for y in x.args] == [0.0, 0.0, 0.0, 1.0])
             for x in c.walk())]
         exact = any(is_call_to(x, "numpy.equal", "numpy.array_equal")
                     or (x.op == "cmp" and x.args[0] == "Eq")
